@@ -47,6 +47,8 @@ CLAIM = {
 }
 
 BATCH = 1000
+CPU_LIMIT = 3          # CPU seconds for one unit in ppci (a unit normally takes < 1 ms)
+RUNAWAY_BREAKER = 6    # after this many non-terminating units a worker stops exploring the macro family
 MARK = "VFMARK_"
 NAMES = ["A", "B", "D", "V", "f", "g", "h", "v", "s", "xs", "cat", "xcat", "p"]
 UNDEFS = "".join("#undef %s\n" % n for n in NAMES)
@@ -367,7 +369,7 @@ def cond_units():
         for has_else in (False, True):
             for op, _ in IF_FORMS:
                 for el in itertools.product(ELIF_FORMS, repeat=ne):
-                    feat = "chain" + ("+elif" if ne else "") + ("+else" if has_else else "")
+                    feat = "elif" if ne else "else" if has_else else "if"
                     units.append((build(op, [e[0] for e in el], has_else), feat))
     for ne in range(3):
         for has_else in (False, True):
@@ -551,7 +553,7 @@ def ppci_unit(src):
     from ppci.lang.c.utils import LineInfo
     from vf.core import cpu_limit, CpuTimeout
     try:
-        with cpu_limit(10):
+        with cpu_limit(CPU_LIMIT):
             pre = CPreProcessor(COptions())
             toks = []
             for t in pre.process_file(io.StringIO(src), "u.c"):
@@ -563,7 +565,7 @@ def ppci_unit(src):
             f = io.StringIO()
             CTokenPrinter().dump(toks, file=f)
     except CpuTimeout:
-        return ("exc", Runaway("CPU limit of 10 s exceeded"))
+        return ("exc", Runaway("CPU limit of %d s exceeded" % CPU_LIMIT))
     except Exception as ex:  # noqa
         return ("exc", ex)
     return ("ok", [t.val for t in toks if t.typ not in ("WS", "BOL")], f.getvalue())
@@ -662,13 +664,20 @@ def if_key(info, kind, key):
         pass
     if ev:
         return "if-eval/" + ev[0]
-    if kind in ("crash", "rejects", "runaway"):
-        return "if-eval/" + key
-    if kind == "print":
-        return "if-eval/" + key
     if info[0] == "P":
-        return "if-parse/" + info[2]
+        return None  # decided in the parent: operator defect (seen in family I) or grouping defect
+    if kind in ("crash", "rejects", "runaway", "print"):
+        return "if-eval/" + key
     return "if-eval/op/" + rootop(tree)
+
+
+def parse_class(label):
+    a, b = label.split(",")
+    if a.startswith("?:"):
+        return "conditional"
+    if a.startswith("unary"):
+        return "unary-operand"
+    return "associativity" if PREC[a] == PREC[b] else "precedence"
 
 
 _FAMS = None  # set by run() before forking; closures cannot be pickled into pool tasks
@@ -678,6 +687,7 @@ def worker(p, shard):
     from vf.gen.ctok import tokenize
     fams = _FAMS
     counters = {}
+    runaways = 0
     for fi, start, stop in shard:
         fam = fams[fi]
         units = [fam.get(i) for i in range(start, stop)]
@@ -715,16 +725,25 @@ def worker(p, shard):
                     if p.counters["ref_vs_gcc_disagree"] <= 3:
                         p.collect("ref_vs_gcc_disagree_examples", render(info[1]))
                     continue
+            if fam_name == "M" and runaways >= RUNAWAY_BREAKER:
+                p.count("skipped_after_runaways")
+                continue
             p.add()
             p.count("units_" + fam_name)
             v = judge(src, g)
+            if v is not None and v[0] == "runaway":
+                runaways += 1
             if v is not None and v[0] == "unclassified":
                 p.count("unclassified_tokenizer")
                 continue
             if fam_name in ("I", "P"):
                 p.outcome((fam_name, rootop(info[1]), tuple(g)))
                 if v is not None:
-                    p.violation(if_key(info, v[0], v[1]), v[2], {"src": src}, order=order)
+                    key = if_key(info, v[0], v[1])
+                    if key is None:
+                        p.collect("parse_failures", (order, info[2], v[2], src))
+                    else:
+                        p.violation(key, v[2], {"src": src}, order=order)
             elif fam_name == "C":
                 p.outcome(("C", tuple(g)))
                 if v is not None:
@@ -776,7 +795,11 @@ def unit_context(ds, us):
     defined = {DEFS[d][1]: d for d in ds}
     fn_like = {n for n, d in defined.items() if DEFS[d][2][len("#define ") + len(n):].startswith("(")}
     # macros whose replacement list ends in the name of a function-like macro
-    producers = {n for n, d in defined.items() if (_ID.findall(DEFS[d][2]) or [""])[-1] in fn_like and DEFS[d][2].rstrip()[-1] != ")"}
+    producers = set()
+    for _ in defined:
+        for n, d in defined.items():
+            if (_ID.findall(DEFS[d][2]) or [""])[-1] in fn_like | producers and DEFS[d][2].rstrip()[-1] != ")":
+                producers.add(n)
     for u, nxt in zip(us, us[1:]):
         text = USES[u][1]
         if (text in fn_like or (_ID.findall(text) or [""])[0] in producers) and not USES[nxt][1].startswith("("):
@@ -829,8 +852,23 @@ def key_macro_failures(ctx, munits, fails, fam_index):
     ctx.note("macro_minimal_failing_units", n_min)
 
 
+def key_parse_failures(ctx, fails):
+    """An unparenthesised unit that fails although its C-rule evaluation has no special event: blame the operator if the
+    parenthesised family already shows that operator evaluating wrongly, else the grouping (precedence / associativity)."""
+    bad_ops = {k[len("if-eval/op/"):] for k in ctx.violations if k.startswith("if-eval/op/")}
+    explained = 0
+    for order, label, what, src in sorted(fails):
+        ops = set(label.replace("?:?:", "?:").split(","))
+        if ops & bad_ops:
+            explained += 1
+            continue
+        ctx.violation("if-parse/" + parse_class(label), what, {"src": src}, order=order)
+    ctx.note("parse_failures", len(fails))
+    ctx.note("parse_failures_explained_by_operator_defect", explained)
+
+
 def run(ctx):
-    global _FAMS, BATCH
+    global _FAMS
     fams, munits, s1, s2 = families(ctx.tier, ctx.seed)
     batch = BATCH if ctx.quick else 4 * BATCH
     items = []
@@ -846,6 +884,9 @@ def run(ctx):
     ctx.pmap(worker, items)
     fails = ctx.sets.pop("macro_failures", set())
     key_macro_failures(ctx, munits, fails, len(fams) - 1)
+    key_parse_failures(ctx, ctx.sets.pop("parse_failures", set()))
+    if ctx.counters.get("skipped_after_runaways"):
+        ctx.cap("%d macro units skipped after %d non-terminating units in a worker" % (ctx.counters["skipped_after_runaways"], RUNAWAY_BREAKER))
     if ctx.counters.get("ref_vs_gcc_disagree"):
         ctx.cap("reference evaluator and gcc disagree on %d #if units (excluded, see examples)" % ctx.counters["ref_vs_gcc_disagree"])
 
